@@ -931,7 +931,7 @@ func runC15(prop, tier string) int {
 		fmt.Println(err)
 		return 2
 	}
-	ntrees := 4
+	ntrees := 3
 	if tier == "thorough" {
 		ntrees = 30
 	}
